@@ -262,6 +262,18 @@ CYCLES = collections.OrderedDict([
     ("only-connection-of-a-peer-garbage", cyc_idle_peer_garbage), ("garbage-and-traffic-on-two-connections-in-one-instant", cyc_two_connections_same_instant),
 ])
 
+def _cyc_flood(n):
+    def cyc(sc, i):
+        # a younger connection closes itself on garbage in the instant in which the standing connection has n answers to write
+        c = _fresh_accept(sc)
+        sc.apply(("m", c, "cer_p2"))
+        sc.apply(("xn", sc.std, "dwr", n, c, "badlen"))
+    return cyc
+
+
+# cycles that are too expensive for 40 repetitions and for the pair product: repeated 1 and 3 times, under both scheduling policies
+EXTRA_CYCLES = collections.OrderedDict((f"{n}-wake-ups-while-another-connection-closes-itself", _cyc_flood(n)) for n in (12, 50, 700))
+
 SKIP_ATTRS = {"statistics", "counters", "statistics_history", "logger", "connection_logger", "stats_logger", "msg_dump", "avp_def",
               "accepted"}       # `accepted` is the harness queue shim's own observation list
 NO_RECURSE = {"socket_peers"}   # a fileno index: its size is bounded by descriptor reuse, its values are stale by design
@@ -342,7 +354,7 @@ def run_sequence(names, reps, policy=None):
         if not sc.apply(("m", sc.std, "cer_p0")):
             raise sk.HarnessError("cannot establish the standing connection")
         for name in names:
-            f = CYCLES[name]
+            f = CYCLES.get(name) or EXTRA_CYCLES[name]
             for i in range(reps):
                 f(sc, i)
         # come to rest: answer everything, let every poll interval pass, keep the standing connection alive
@@ -508,6 +520,48 @@ def handover_execute(variant, k):
         vs = [(f"growth:{key}:per:request-after-handshake-interrupted-by-{fault}:{msg}",
                f"{fault} at kernel step {k} of the handling of {msg}: {key} = {a} after 1 request, {b} after 4 (socket closed={s.fs.closed}, "
                f"send_request outcomes {[r[2] for r in sc.send_results]})") for key, a, b in grown]
+        if msg != "cea_ok" and k is not None and fired:
+            # the same interruption on two further inbound connections (same relative step): what one such connection attempt leaves
+            # behind must not add up
+            for _ in range(2):
+                sc.max_socks = len(sc.socks) + 1
+                if not sc.apply(("accept",)):
+                    break
+                c = len(sc.socks) - 1
+                s2 = sc.socks[c]
+
+                def inject2(s2=s2):
+                    if fault == "eof":
+                        s2.env_closed = True
+                        s2.fs.eof = True
+                        nw.world.obs("env_eof", s2.fs.sid)
+                    else:
+                        nw.world.jump(3)
+                    ch.active = True
+                nw.world.step_hooks[nw.world.steps + k] = inject2
+                nw.world.points_on = True
+                sc.apply(("m", c, msg))
+                nw.world.points_on = False
+                nw.world.step_hooks.clear()
+                ch.active = False
+                sc.apply(("tick", 7))
+                if not s2.fs.closed and not s2.env_closed:
+                    sc.apply(("eof", c))
+            sc.apply(("tick", 6))
+            m7 = measure(sc)
+            # (connections that survived their handshake were closed by the peer above; compare with the state after the first one, whose
+            # connection may still be open: only thread / socket / table counts beyond "one open connection" can differ legitimately)
+            if not s.fs.closed and not s.env_closed:
+                sc.apply(("eof", 0))
+                sc.apply(("tick", 6))
+                m7 = measure(sc)
+                m4 = None
+            if m4 is not None:
+                g2 = tuple(sorted((key, m4.get(key, 0), m7.get(key, 0)) for key in set(m4) | set(m7)
+                                  if m4.get(key, 0) != m7.get(key, 0) and "_app_waiting_answer" not in key))
+                vs += [(f"growth:{key}:per:handshake-interrupted-by-{fault}:{msg}",
+                        f"{fault} at kernel step {k} of the handling of {msg}, on three connections in turn: {key} = {a} after the first, {b} after the third")
+                       for key, a, b in g2]
         for f in nw.thread_failures():
             vs.append((f"thread-died:after-handshake-interrupted-by-{fault}:{msg}", f"step {k}: {f}"))
         return bool(fired), steps, vs
@@ -534,6 +588,7 @@ def run(tier):
     jobs = [((n,), lo, hi) for n in names]
     # every cycle also under the second scheduling policy: the I/O thread runs only when no other thread can
     jobs += [((n,), lo, hi, "_handle_connections") for n in names]
+    jobs += [((n,), 1, 3, pol) for n in EXTRA_CYCLES for pol in (None, "_handle_connections")]
     # every ordered pair of cycles: the second kind of activity must not resurrect growth left dormant by the first
     pairs = list(itertools.permutations(names, 2))
     jobs += [(p, 2, 6) for p in pairs]
